@@ -10,6 +10,7 @@ import (
 	"fmt"
 	"sort"
 	"strings"
+	"sync"
 
 	conf "github.com/alibaba/RedisShake/redis-shake/configure"
 	"github.com/alibaba/RedisShake/redis-shake/filter"
@@ -128,6 +129,51 @@ func kfRun(in []byte) (interface{}, error) {
 				}
 			}
 		}
+	}
+	// the same cases from several goroutines at once: one DbSyncer goroutine per source runs the filter concurrently
+	for _, mode := range []string{"white", "black"} {
+		conf.Options.FilterKeyWhitelist, conf.Options.FilterKeyBlacklist = nil, nil
+		if mode == "white" {
+			conf.Options.FilterKeyWhitelist = []string{"ok"}
+		} else {
+			conf.Options.FilterKeyBlacklist = []string{"no"}
+		}
+		var wg sync.WaitGroup
+		var mu sync.Mutex
+		for g := 0; g < 8; g++ {
+			wg.Add(1)
+			go func(g int) {
+				defer wg.Done()
+				for rep := 0; rep < 20; rep++ {
+					for ci := range cfg.Cases {
+						c := cfg.Cases[(ci+g*37)%len(cfg.Cases)]
+						for _, cmd := range c.Cmds {
+							if _, ok := filter.RedisCommands[cmd]; !ok {
+								continue
+							}
+							args := kfArgs(&c, "ok", "no")
+							var want [][]byte
+							for _, idx := range c.Out.Keep {
+								want = append(want, args[idx-1])
+							}
+							got, drop, pan := call(cmd, args)
+							if pan != "" || drop != c.Out.Drop || (!drop && render(got) != render(want)) {
+								mu.Lock()
+								if len(res.Mismatches) < 400 {
+									res.Mismatches = append(res.Mismatches, Mismatch{Case: ci, Kind: "L1",
+										Detail: fmt.Sprintf("%s %s (filter %s, 8 concurrent syncers): dropped=%v forwarded [%s] %s; contract says dropped=%v [%s]", cmd, render(args), mode, drop, render(got), pan, c.Out.Drop, render(want)),
+										Extra:  map[string]interface{}{"cmd": cmd, "cls": c.Cls, "n": c.N, "pass": c.Pass, "mode": mode + "-concurrent"}})
+								}
+								mu.Unlock()
+								return
+							}
+						}
+					}
+				}
+			}(g)
+		}
+		wg.Wait()
+		res.Evaluations += 8 * 20 * len(cfg.Cases)
 	}
 	// commands outside the table (not key-addressed for the tool) are forwarded unchanged
 	conf.Options.FilterKeyWhitelist = []string{"ok"}
